@@ -5,6 +5,7 @@ import (
 	"strconv"
 	"sync"
 	"sync/atomic"
+	"time"
 
 	utils "github.com/alibaba/RedisShake/redis-shake/common"
 	conf "github.com/alibaba/RedisShake/redis-shake/configure"
@@ -296,12 +297,28 @@ func c15(c *wk.Ctx) {
 	if len(lr) > c.N(300, 3000) {
 		lr = lr[len(lr)-c.N(300, 3000):]
 	}
+	var latStuck int32
 	wk.Parallel(len(lr), 16, func(i int) {
 		g := lr[i]
 		if g.r-g.l < 3 && !c.Thorough() {
 			return // a singleton search scans ~16k candidates; keep quick cheap
 		}
-		k := latencymonitor.VerifFindKeyInRange(g.l, g.r)
+		if atomic.LoadInt32(&latStuck) != 0 {
+			return
+		}
+		// the search has no bound of its own: one that does not come back (the unchanged code needs milliseconds per
+		// range, every range holds thousands of candidate keys) is a verdict, not something to wait out
+		kc := make(chan string, 1)
+		go func() { kc <- latencymonitor.VerifFindKeyInRange(g.l, g.r) }()
+		var k string
+		select {
+		case k = <-kc:
+		case <-time.After(90 * time.Second):
+			if atomic.CompareAndSwapInt32(&latStuck, 0, 1) {
+				r.Violationf("C15|latencykey|outcome=search-does-not-terminate", map[string]interface{}{"l": g.l, "r": g.r}, "findKeyInRange(%d,%d) did not return within 90 s", g.l, g.r)
+			}
+			return
+		}
 		r.Case("latkey|" + fmt.Sprint(len(k)))
 		r.Count("latency_ranges", 1)
 		s := refcrc.Slot([]byte(k))
